@@ -272,7 +272,7 @@ class PathCtx:
 
 
 class Explorer:
-    def __init__(self, max_paths=20000, max_depth=400, timeout_ms=60000, stop_on_cex=False, seed=0):
+    def __init__(self, max_paths=20000, max_depth=5000, timeout_ms=60000, stop_on_cex=False, seed=0):
         self.solver = z3.Solver()
         self.solver.set("timeout", timeout_ms)
         self.solver.set("random_seed", seed & 0xFFFF)
@@ -719,7 +719,7 @@ class SInt(Sym):
 
     def astype(self, dt):
         from . import arrays
-        return arrays.cast_scalar(self, dt)
+        return arrays.scalar0d(arrays.cast_scalar(self, dt), dt)
 
     # -- arithmetic --------------------------------------------------------
     def _bin(self, o, op, rev=False):
@@ -921,7 +921,7 @@ class SReal(Sym):
 
     def astype(self, dt):
         from . import arrays
-        return arrays.cast_scalar(self, dt)
+        return arrays.scalar0d(arrays.cast_scalar(self, dt), dt)
 
     def __add__(self, o): return _real_op(self, o, "add")
     def __radd__(self, o): return _real_op(o, self, "add")
@@ -1117,6 +1117,44 @@ class SBV(Sym):
     def __and__(self, o):
         a, b = SBV.coerce(self, o)
         return SBV(a.t & b.t, self.signed)
+
+    __rand__ = __and__
+
+    def __or__(self, o):
+        a, b = SBV.coerce(self, o)
+        return SBV(a.t | b.t, self.signed)
+
+    __ror__ = __or__
+
+    def __xor__(self, o):
+        a, b = SBV.coerce(self, o)
+        return SBV(a.t ^ b.t, self.signed)
+
+    def __invert__(self):
+        return SBV(~self.t, self.signed)
+
+    def __lshift__(self, k):
+        return SBV(self.t << k, self.signed)
+
+    def _cmp(self, o, sop, uop):
+        a, b = SBV.coerce(self, o)
+        return mkbool(z3.simplify(sop(a.t, b.t) if self.signed else uop(a.t, b.t)))
+
+    def __lt__(self, o): return self._cmp(o, lambda a, b: a < b, z3.ULT)
+    def __le__(self, o): return self._cmp(o, lambda a, b: a <= b, z3.ULE)
+    def __gt__(self, o): return self._cmp(o, lambda a, b: a > b, z3.UGT)
+    def __ge__(self, o): return self._cmp(o, lambda a, b: a >= b, z3.UGE)
+
+    def __bool__(self):
+        return builtins.bool(self != 0)
+
+    def astype(self, dt):
+        from . import arrays
+        return arrays.scalar0d(arrays.cast_scalar(self, dt), dt)
+
+    def __mod__(self, o):
+        a, b = SBV.coerce(self, o)
+        return SBV(z3.SRem(a.t, b.t) if self.signed else z3.URem(a.t, b.t), self.signed)
 
     def __rshift__(self, k):
         return SBV(self.t >> k if self.signed else z3.LShR(self.t, k), self.signed)
